@@ -27,6 +27,12 @@ def histories(ctx):
         if k not in seen:
             seen.add(k)
             out.append(h)
+    # the thorough tier enumerates ~280k histories; replaying every one with a full observation after every
+    # call is beyond the tier's budget: keep a seeded sample (the quick tier is replayed completely)
+    cap = 45000
+    if len(out) > cap:
+        ctx.notes.append("%d histories generated, a seeded sample of %d replayed" % (len(out), cap))
+        out = [out[i] for i in sorted(ctx.rng.sample(range(len(out)), cap))]
     return out
 
 
@@ -34,7 +40,7 @@ def replay(ctx, hs, driver="badger", tag="store"):
     lines = [dict(setup=True, driver=driver)] + [dict(i=i, hist=[dict(call=x["call"]) for x in h]) for i, h in enumerate(hs)]
     inp = ctx.write_ndjson("%s_in.ndjson" % tag, lines)
     outp = os.path.join(ctx.scratch, "%s_out.ndjson" % tag)
-    ctx.harness(["store", "-j", "12"], input_path=inp, output_path=outp, timeout=2400)
+    ctx.harness(["store", "-j", "14"], input_path=inp, output_path=outp, timeout=5400)
     outs = {o["i"]: o for o in ctx.read_ndjson(outp) if "i" in o}
     if len(outs) != len(hs):
         raise Inconclusive("store harness answered %d of %d behaviours" % (len(outs), len(hs)))
